@@ -8,6 +8,8 @@ import EinoV.Proofs.C15Trie
 import EinoV.Proofs.C15
 import EinoV.Proofs.C15Keys
 import EinoV.Proofs.C15Static
+import EinoV.Model.C15Embed
+import EinoV.Proofs.C15Embed
 import EinoV.Gen.FactsC15
 import EinoV.Expected.C15
 
@@ -306,6 +308,173 @@ example : take Expected.C15.take exTop exSrc ["A", "S"] = .error .bad := rfl
 example : take Expected.C15.take exTop
     (.obj (.cons "S" (.str "s") (.cons "L" (exLeafV "l" 1) (.cons "PL" .nil (.cons "MPL" .nil (.cons "A" .nil .nil))))))
     ["PL", "S"] = .error .bad := rfl
+
+/-! ## embedded struct fields: promoted selectors (Model/C15Embed.lean)
+
+  A path segment may name a field promoted from an embedded struct (`ID` for `Base.ID`; `reflect`
+  `FieldByName` follows embedding).  Go: "x.f is shorthand for x.A.f".  The model elaborates every
+  declared path to the explicit path it is shorthand for (`elabTy`: against the static type;
+  `elabVal`: on the value, for source paths below interface values) and hands the result to the
+  core model.  The clauses of the property are therefore statements about the *slots the declared
+  paths denote*. -/
+
+/-- **promoted_conservative.** Without embedded fields no selector is promoted: elaboration is
+    the identity and the extended model is the core model (every theorem above is the special
+    case `e = []` of its promoted form). -/
+theorem promoted_conservative (allowMissing : Bool) (st : FTy) (es : List Edge)
+    (decls : List (FTy × List Mapping)) :
+    (∀ t p, elabTy [] t p = p) ∧
+    runNodeP [] srcTake srcValidate allowMissing st es = runNode srcTake srcValidate allowMissing st es ∧
+    compileOKP [] srcTrie srcValidate st decls = compileOK srcTrie srcValidate st decls := by
+  refine ⟨fun t p => elabTy_nil p t, ?_, ?_⟩
+  · unfold runNodeP runNodeR runNode
+    have hes : es.map (elabEdge [] st) = es := by
+      rw [show elabEdge [] st = id from funext (elabEdge_nil st)]; exact List.map_id es
+    rw [hes, edgesMapR_src srcTake srcValidate allowMissing st (fun ed m => runPath [] srcTake ed.pt ed.v m)
+      (fun ed m => elabVal_nil srcTake m.src _) es]
+    cases edgesMap srcTake srcValidate allowMissing st es with
+    | error err => rfl
+    | ok l => cases convertTo st l <;> rfl
+  · unfold compileOKP
+    have hd : decls.map (fun d => (d.1, d.2.map (elabMapping [] d.1 st))) = decls := by
+      have : (fun (d : FTy × List Mapping) => (d.1, d.2.map (elabMapping [] d.1 st))) = id := by
+        funext d
+        obtain ⟨pt, ms⟩ := d
+        have hid : elabMapping [] pt st = id := by funext m; cases m; simp [elabMapping, elabTy_nil]
+        simp [hid]
+      rw [this]; exact List.map_id decls
+    rw [hd]
+
+/-- **overlap_rejected_iff (promoted).** Overlap is judged on the slots the target paths denote:
+    whatever the declaration order, the declarations of a node with input type `st` are accepted
+    iff no two *elaborated* target paths are equal or prefix-related — `ID` next to `Base`, or
+    next to `Base.ID`, is an overlap although the declared paths share no segment. -/
+theorem overlap_rejected_iff_promoted (e : Emb) (st : FTy) (groups : List (List Path)) :
+    acceptedOverlap srcTrie (groups.map (·.map (elabTy e st))) = true ↔
+      noOverlap (targets (groups.map (·.map (elabTy e st)))) :=
+  overlap_rejected_iff _
+
+/-- **mapped_exact (promoted).** For declared target paths whose elaborations are pairwise
+    prefix-unrelated and assignable, every iteration order of `convertTo` yields the same
+    successor input, which holds exactly the taken value at the slot each declared path denotes
+    and is zero at every path unrelated to all of them. -/
+theorem mapped_exact_promoted (e : Emb) (T : FTy) (l : List (Path × Taken))
+    (hno : noOverlap (l.map (fun x => elabTy e T x.1)))
+    (hok : ∀ x ∈ l, (assign T (newInstance T) (elabTy e T x.1) x.2).isSome) :
+    ∃ v, (∀ l' : List (Path × Taken), l'.Perm l → convertTo T (l'.map (fun x => (elabTy e T x.1, x.2))) = some v) ∧
+      (∀ x ∈ l, ∃ st w, slotTy T (elabTy e T x.1) = some st ∧ store st x.2 = some w ∧
+        getT T v (elabTy e T x.1) = some (st, w)) ∧
+      (∀ q, (∀ x ∈ l, ¬ prefixRel (elabTy e T x.1) q) → getT T v q = getT T (newInstance T) q) := by
+  let g : Path × Taken → Path × Taken := fun x => (elabTy e T x.1, x.2)
+  have hno' : noOverlap ((l.map g).map (·.1)) := by simpa [List.map_map, Function.comp_def, g] using hno
+  have hok' : ∀ y ∈ l.map g, (assign T (newInstance T) y.1 y.2).isSome := by
+    intro y hy
+    obtain ⟨x, hx, rfl⟩ := List.mem_map.mp hy
+    exact hok x hx
+  obtain ⟨v, hperm, hA, hB⟩ := mapped_exact T (l.map g) hno' hok'
+  refine ⟨v, fun l' hp => hperm _ (hp.map g), fun x hx => hA (g x) (List.mem_map_of_mem hx),
+    fun q hq => hB q (fun y hy => ?_)⟩
+  obtain ⟨x, hx, rfl⟩ := List.mem_map.mp hy
+  exact hq x hx
+
+/-- **runtime_check_no_panic (promoted).** If every declared mapping, elaborated against the
+    static types, passed the static check, a run never panics — whatever selectors are promoted
+    and wherever: a source path through a nil embedded pointer is an error like any nil pointer
+    on a source path, a promoted selector below an interface value is resolved on the value, a
+    target path through an embedded pointer instantiates it, and whatever passes the run-time
+    checkers can be assigned; in non-streaming and streaming form alike. -/
+theorem runtime_check_no_panic_promoted (e : Emb) (allowMissing : Bool) (st : FTy) (es : List Edge)
+    (hval : ∀ ed ∈ es, ∀ m ∈ ed.ms, (validateOne srcValidate ed.pt st (elabMapping e ed.pt st m)).isSome) :
+    runNodeP e srcTake srcValidate allowMissing st es ≠ .error .panic := by
+  rw [facts_match.2.1, facts_match.2.2] at *
+  unfold runNodeP
+  refine runNodeR_no_panic allowMissing st _ _ ?_ (runPath_agrees e _ _)
+  intro ed' hed' m' hm'
+  obtain ⟨ed, hed, rfl⟩ := List.mem_map.mp hed'
+  simp only [elabEdge] at hm' ⊢
+  obtain ⟨m, hm, rfl⟩ := List.mem_map.mp hm'
+  exact hval ed hed m hm
+
+/-! ### promoted selectors: non-vacuity and the negations for the code as found -/
+
+/-- `Base{ID; N}`, `SrcV{Base; Name}` (embedded by value), `SrcP{*Base; Name}` (by pointer),
+    `Outer{*SrcP; X}` (two levels, both by pointer) -/
+def exBase : FTy := .struct "Base" (.cons "ID" .str (.cons "N" .int .nil))
+def exSrcV : FTy := .struct "SrcV" (.cons "Base" exBase (.cons "Name" .str .nil))
+def exSrcP : FTy := .struct "SrcP" (.cons "Base" (.ptr exBase) (.cons "Name" .str .nil))
+def exOuter : FTy := .struct "Outer" (.cons "SrcP" (.ptr exSrcP) (.cons "X" .str .nil))
+def exEmb : Emb := [("SrcV", "Base"), ("SrcP", "Base"), ("Outer", "SrcP")]
+
+/-- selectors at one and two levels of embedding; a declared field and an explicit path are
+    their own elaboration; an unknown name is kept -/
+example : elabTy exEmb exSrcV ["ID"] = ["Base", "ID"] ∧ elabTy exEmb exOuter ["N"] = ["SrcP", "Base", "N"] ∧
+    elabTy exEmb exOuter ["SrcP", "Base", "N"] = ["SrcP", "Base", "N"] ∧ elabTy exEmb exOuter ["Name"] = ["SrcP", "Name"] ∧
+    elabTy exEmb exSrcV ["Name"] = ["Name"] ∧ elabTy exEmb exSrcV ["Nope", "x"] = ["Nope", "x"] := by decide
+
+/-- a promoted source field yields the field's value (not the embedded struct), by value and
+    through a non-nil embedded pointer; through a nil embedded pointer it is an error -/
+example :
+    take Expected.C15.take exSrcV (.obj (.cons "Base" (.obj (.cons "ID" (.str "id-1") (.cons "N" (.int 7) .nil))) (.cons "Name" (.str "nm") .nil)))
+      (elabTy exEmb exSrcV ["ID"]) = .ok (some (.str, .str "id-1")) ∧
+    take Expected.C15.take exSrcP (.obj (.cons "Base" (.ptr (.obj (.cons "ID" (.str "id-1") (.cons "N" (.int 7) .nil)))) (.cons "Name" (.str "nm") .nil)))
+      (elabTy exEmb exSrcP ["N"]) = .ok (some (.int, .int 7)) ∧
+    take Expected.C15.take exSrcP (.obj (.cons "Base" .nil (.cons "Name" (.str "nm") .nil)))
+      (elabTy exEmb exSrcP ["N"]) = .error .bad := by decide
+
+/-- a promoted selector below an interface value is resolved on the value -/
+example :
+    runPath exEmb Expected.C15.take exTop
+      (.obj (.cons "S" (.str "s") (.cons "L" (exLeafV "l" 1) (.cons "PL" .nil (.cons "MPL" .nil
+        (.cons "A" (.box exSrcV (.obj (.cons "Base" (.obj (.cons "ID" (.str "dyn") (.cons "N" (.int 1) .nil))) (.cons "Name" (.str "") .nil)))) .nil))))))
+      ⟨["A", "ID"], ["S"]⟩ = ["A", "Base", "ID"] := by decide
+
+/-- a target through two embedded pointers: both are instantiated, the run succeeds -/
+example :
+    runNodeP exEmb Expected.C15.take Expected.C15.validate false exOuter
+      [{ pt := exLeaf, v := exLeafV "v" 3, ms := [⟨["S"], ["ID"]⟩] }] =
+    .ok (.obj (.cons "SrcP" (.ptr (.obj (.cons "Base" (.ptr (.obj (.cons "ID" (.str "v") (.cons "N" (.int 0) .nil)))) (.cons "Name" (.str "") .nil))))
+      (.cons "X" (.str "") .nil))) := by decide
+
+/-- The overlap check on the paths as declared (the code as found) accepts a promoted selector
+    next to the embedded struct that holds the field, and next to the explicit path of the same
+    field; on the slots denoted both are conflicts; and the result of such a set depends on the
+    iteration order of `convertTo`. -/
+theorem promoted_alias_accepted_as_declared :
+    acceptedOverlap Expected.C15.trie [[["ID"]], [["Base"]]] = true ∧
+    acceptedOverlap Expected.C15.trie [[["ID"]], [["Base", "ID"]]] = true ∧
+    acceptedOverlap Expected.C15.trie ([[["ID"]], [["Base"]]].map (·.map (elabTy exEmb exSrcV))) = false ∧
+    acceptedOverlap Expected.C15.trie ([[["ID"]], [["Base", "ID"]]].map (·.map (elabTy exEmb exSrcV))) = false ∧
+    convertTo exSrcV [(elabTy exEmb exSrcV ["ID"], some (.str, .str "a")),
+        (elabTy exEmb exSrcV ["Base"], some (exBase, .obj (.cons "ID" (.str "whole") (.cons "N" (.int 5) .nil))))] ≠
+      convertTo exSrcV [(elabTy exEmb exSrcV ["Base"], some (exBase, .obj (.cons "ID" (.str "whole") (.cons "N" (.int 5) .nil)))),
+        (elabTy exEmb exSrcV ["ID"], some (.str, .str "a"))] := by decide
+
+/-- A path through a pointer to a map cannot be walked at run time (`takeOne` and `assignOne`
+    follow pointers only to structs): the static check rejects it for every element type and every
+    continuation, on the source and on the target side, so no accepted mapping set contains one. -/
+theorem path_through_pointer_to_map_rejected (el pt st : FTy) (s : Seg) (r src dst : Path) :
+    extractTy true (.ptr (.map el)) (s :: r) = none ∧
+    extractTy true (.ptr (.ptr (.map el))) (s :: r) = none ∧
+    validateOne srcValidate (.ptr (.map el)) st ⟨s :: r, dst⟩ = none ∧
+    validateOne srcValidate pt (.ptr (.map el)) ⟨src, s :: r⟩ = none := by
+  rw [facts_match.2.2]
+  have h1 : extractTy true (.ptr (.map el)) (s :: r) = none := by
+    simp only [extractTy, structOf]; by_cases hr : r.isEmpty = true <;> simp [hr]
+  have h2 : extractTy true (.ptr (.ptr (.map el))) (s :: r) = none := by
+    simp only [extractTy, structOf]; by_cases hr : r.isEmpty = true <;> simp [hr]
+  refine ⟨h1, h2, ?_, ?_⟩
+  · simp [validateOne, Expected.C15.validate, h1]
+  · simp only [validateOne, Expected.C15.validate, h1]
+    cases extractTy true pt src <;> rfl
+
+/-- … and what a run does when the static check lets such a path through (pointers dereferenced
+    before the map test): the assignment fails ("convertTo failed when must succeed", a panic),
+    the extraction is an error although the value is there. -/
+theorem path_through_pointer_to_map_cannot_run :
+    assign (.struct "D" (.cons "M" (.ptr (.map .str)) .nil)) (newInstance (.struct "D" (.cons "M" (.ptr (.map .str)) .nil)))
+      ["M", "k"] (some (.str, .str "v")) = none ∧
+    take Expected.C15.take (.struct "D" (.cons "M" (.ptr (.map .str)) .nil))
+      (.obj (.cons "M" (.ptr (.map (.cons "k" (.str "v") .nil))) .nil)) ["M", "k"] = .error .bad := by decide
 
 /-! ## the defects found on the unfixed tree: negations for the fact values found there -/
 
